@@ -405,10 +405,16 @@ fn gap_is_blank(gap: &str) -> bool {
     true
 }
 
-// Text between the first pair of back-ticks of a diagnostic "Unexpected symbol `X`."
+// Text between the first pair of back-ticks on the first line of a diagnostic ("Unexpected symbol
+// `X`."). The symbol itself may be a back-tick or contain one, so the closing tick is the last
+// one of the headline.
 fn quoted(m: &str) -> Option<&str> {
-    let m = m.strip_prefix("[Error] Unexpected symbol `")?;
-    let first_line_end = m.find(".\n\n").or_else(|| if m.ends_with('.') { Some(m.len() - 1) } else { None })?;
-    let body = &m[..first_line_end];
-    body.strip_suffix('`')
+    let head_end = m.find("\n\n").unwrap_or(m.len());
+    let head = &m[..head_end];
+    if !head.contains("[Error]") {
+        return None;
+    }
+    let a = head.find('`')?;
+    let b = head.rfind('`')?;
+    if b <= a { None } else { Some(&head[a + 1..b]) }
 }
